@@ -42,8 +42,12 @@ json_any = st.recursive(json_scalar, lambda c: st.one_of(st.lists(c, max_size=3)
 
 @st.composite
 def st_event_obj(draw, n):
+    # validly signed events, some with tag structures a relay may accept but that are not lists of strings
     ev = E.make(draw(st.integers(0, 2)), draw(st.sampled_from([1, 1, 0, 5, 7, 30000, 20000, 22242])),
-                E.T0 + n, draw(st.sampled_from([[], [["t", "a"]], [["e", KNOWN["id"]]], [["d", "x"]]])), "m%d" % n)
+                E.T0 + n, draw(st.sampled_from([[], [["t", "a"]], [["e", KNOWN["id"]]], [["d", "x"]],
+                                                [["e", ["nested", "list"]]], [["t", 5], ["e", None]], [["t", {"a": 1}]],
+                                                [["e", KNOWN["id"]], ["t", ["a"]], ["p", True]], [["t"], ["e"]],
+                                                [["expiration", ["x"]]], [["d", ["x"]]], [["d", 7]]])), "m%d" % n)
     k = draw(st.integers(0, 9))
     if k <= 4:
         return ev
@@ -192,6 +196,7 @@ class Robust(Sub):
             counter = [0]
             b = rig.conn("10.0.0.2")
             await b.send(["REQ", "watch", {"kinds": [1], "since": E.T0 + 500}])
+            await b.send(["REQ", "watchtags", {"#e": [KNOWN["id"]], "#t": ["a"], "#p": [E.PKS[0]], "#d": ["x"]}])
             await rig.settle()
             base_tasks = len([t for t in asyncio.all_tasks() if not t.done()])
             rl = RateLimiter({"ip": {"EVENT": case["limit"], "REQ": case["limit"]}}) if case["limit"] else None
@@ -366,4 +371,61 @@ class AsgiStack(Sub):
         return Result(viol, nt, ["backend:" + backend] + (["closed-by-relay"] if closed_by_relay else []))
 
 
-SUBCHECKS = [Robust(), AsgiStack()]
+class MidDelivery(Sub):
+    """a client that asks for a large result and goes away while it is being delivered, repeatedly"""
+
+    name = "mid-delivery-disconnect"
+    examples = {"quick": 32, "thorough": 256}
+    shards = {"quick": 8, "thorough": 16}
+    rule = ("300-500 stored events; 10-14 connections each send a REQ matching all of them and disconnect after a drawn number "
+            "of loop turns (before, during or after delivery); then a bystander's REQ and EVENT must be answered and no task "
+            "may be left over or left waiting on a lock; non-trivial = at least one disconnect fell inside a delivery")
+
+    def strategy(self, tier):
+        return st.tuples(st.sampled_from(["kv", "sql"]), st.integers(300, 500), st.integers(10, 14),
+                         st.lists(st.sampled_from([0, 1, 2, 3, 5, 8, 20]), min_size=14, max_size=14)).map(list)
+
+    def run_case(self, case):
+        return H.run(self._run, case)
+
+    async def _run(self, case):
+        backend, n_events, n_conns, turns = case
+        viol = []
+        async with H.Rig(backend, validators=[], file_db=True if backend == "sql" else None) as rig:
+            for i in range(n_events):
+                await rig.add(E.free("%064x" % (i + 1), E.PKS[0], 1, E.T0 + i, [], "bulk"), pump=False)
+            rig.pump()
+            await rig.settle()
+            await rig.settle()
+            base_tasks = len([t for t in asyncio.all_tasks() if not t.done()])
+            inside = False
+            for j in range(n_conns):
+                c = rig.conn("10.0.1.%d" % j)
+                c.send_turns = 1 + (j % 2)
+                c.feed(["REQ", "all", {"kinds": [1], "limit": 1000}])
+                c.feed(None, turns[j] * 10)
+                for _ in range(turns[j] * 10 + 2):
+                    await asyncio.sleep(0)
+                if 0 < len(c.out) < n_events:
+                    inside = True
+            await rig.settle()
+            if rig.stuck:
+                viol.append(V("stuck-on-lock", "when a connection ends its tasks finish", waiting=rig.stuck))
+            left = [t for t in asyncio.all_tasks() if not t.done() and t is not asyncio.current_task()]
+            if not viol and len(left) + 1 > base_tasks:
+                names = sorted(str(getattr(t.get_coro(), "__qualname__", t)) for t in left)
+                viol.append(V("tasks-leaked", "when a connection ends all its subscriptions are dropped and its tasks finish",
+                              before=base_tasks, after=len(left) + 1, tasks=names[:6]))
+            if not viol:
+                b = rig.conn("10.0.2.1")
+                fr = await b.send(["REQ", "probe", {"ids": ["%064x" % 1]}])
+                if rig.stuck or not any(json.loads(x)[0] == "EOSE" for x in fr):
+                    viol.append(V("bystander-req-not-answered", "other connections are unaffected", waiting=rig.stuck, frames=fr[:2]))
+                fr = await b.send(["EVENT", E.free("ee" * 32, E.PKS[1], 1, E.T0 + 9999, [], "after")])
+                if not any(json.loads(x)[0] == "OK" and json.loads(x)[2] is True for x in fr):
+                    viol.append(V("bystander-event-not-accepted", "other connections are unaffected", frames=fr[:2]))
+                await b.disconnect()
+        return Result(viol, inside, ["backend:" + backend])
+
+
+SUBCHECKS = [Robust(), AsgiStack(), MidDelivery()]
